@@ -50,9 +50,9 @@ from props.moncommon import (Mon, DEVS, WIDTHS, install_timer, core_of, tohex, u
 
 ID = 'C20'
 LEAN_MODULES = ['Py65.Props.C20', 'Py65.Proofs.MonPreGenEq', 'Py65.Proofs.MonCmdGenEq', 'Py65.Props.C20g',
-                'Py65.Proofs.MonCompose', 'Py65.Props.C20h']
+                'Py65.Proofs.MonCompose', 'Py65.Props.C20h', 'Py65.Proofs.MonAsmGenEq', 'Py65.Props.C20a']
 NAMESPACES = ['Py65.Props.C20', 'Py65.Proofs.MonPreGenEq', 'Py65.Proofs.MonCmdGenEq', 'Py65.Props.C20g',
-              'Py65.Proofs.MonCompose', 'Py65.Props.C20h']
+              'Py65.Proofs.MonCompose', 'Py65.Props.C20h', 'Py65.Proofs.MonAsmGenEq', 'Py65.Props.C20a']
 # library helpers (CPython behaviour modelled in lean/Py65/Model/*Rt*.lean ...) that the generated code of these
 # modules calls, derived by scanning the Lean sources (harness/rtscan.py); validated against CPython on every run
 import rtcheck  # noqa: E402
@@ -105,6 +105,23 @@ EXPECTED_THEOREMS = [
     'Py65.Props.C20h.rejected_unchanged_composed', 'Py65.Props.C20h.never_raises_composed',
     'Py65.Props.C20h.onecmd_agrees_composed', 'Py65.Props.C20h.oth_models_composed',
     'Py65.Props.C20h.ext_honest_composed', 'Py65.Props.C20h.refusals_composed',
+    # tie by regeneration, unit `asmc`: do_assemble, _interactive_assemble, do_help, do_version, do_cd, do_pwd and
+    # the help_* texts = hand model Py65.Model.MonAsm, for all arguments and all values of the parameters
+    'Py65.Proofs.MonAsmGenEq.shortcuts_eq', 'Py65.Proofs.MonAsmGenEq.help_assemble_eq',
+    'Py65.Proofs.MonAsmGenEq.help_cd_eq', 'Py65.Proofs.MonAsmGenEq.help_pwd_eq',
+    'Py65.Proofs.MonAsmGenEq.help_version_eq', 'Py65.Proofs.MonAsmGenEq.help_help_eq',
+    'Py65.Proofs.MonAsmGenEq.do_version_eq', 'Py65.Proofs.MonAsmGenEq.do_pwd_eq', 'Py65.Proofs.MonAsmGenEq.do_cd_eq',
+    'Py65.Proofs.MonAsmGenEq.do_help_eq', 'Py65.Proofs.MonAsmGenEq.setSlice_eq',
+    'Py65.Proofs.MonAsmGenEq.interactive_try1_eq', 'Py65.Proofs.MonAsmGenEq.interactive_while1_eq',
+    'Py65.Proofs.MonAsmGenEq.interactive_assemble_eq', 'Py65.Proofs.MonAsmGenEq.do_assemble_eq',
+    # ... and the property theorems for the generated commands with the GENERATED assembler plugged in
+    'Py65.Props.C20a.assemble_rejected_unchanged', 'Py65.Props.C20a.assemble_rejected_session',
+    'Py65.Props.C20a.assemble_writes_encoding', 'Py65.Props.C20a.assemble_writes_encoding_dev8',
+    'Py65.Props.C20a.assemble_needs_range', 'Py65.Props.C20a.interactive_assemble_blank',
+    'Py65.Props.C20a.interactive_assemble_accepted', 'Py65.Props.C20a.interactive_assemble_refused',
+    'Py65.Props.C20a.interactive_assemble_wraps', 'Py65.Props.C20a.interactive_assemble_session',
+    'Py65.Props.C20a.asmG_refusals', 'Py65.Props.C20a.interactive_assemble_start',
+    'Py65.Props.C20a.display_commands_pure', 'Py65.Props.C20a.cd_changes_cwd',
 ]
 RULE = ('a line counts as non-trivial when the real monitor dispatched it to a command or refused it '
         '(i.e. everything except blank lines with nothing to repeat); distinct = distinct '
@@ -142,6 +159,32 @@ TRUSTED = [
     'string ([^=,\\s]*)=([^=,\\s]*) (MonCmd.findPairs); shlex.split; int(); %-formatting; traceback text (tb) and '
     'repr(self._mpu) (mpuRepr) are uninterpreted parameters; KeyboardInterrupt (asynchronous) and RecursionError '
     '(the diverging empty-line recursion: theorem onecmd_diverges) are outside the model',
+    'REGENERATED on every run (unit `asmc`, harness/py2lean_monasm.py -> lean/Py65/Gen/MonAsmGen.lean): '
+    'Monitor.do_assemble (args.split(None, 1), arity -> interactive; number(); the call of the assembler; the SLICE '
+    'store self._mpu.memory[start:end] = bytes through the ObservableMemory model ObsMem.setSlice; the call of '
+    'do_disassemble; the three handlers and their texts), Monitor._interactive_assemble (start address, the '
+    'while-True loop, console.line_input, the blank-line exit, assemble -> slice store -> instruction_at -> '
+    '_format_disassembly -> the \\r texts, the advance with the wrap at 2 ** ADDR_WIDTH, the ?Label / ?Overflow / '
+    '?Syntax handlers), do_version, do_pwd, do_cd, do_help (its own line: the shortcut lookup) and help_assemble / '
+    'help_cd / help_pwd / help_version / help_help.  Py65.Proofs.MonAsmGenEq proves them equal to the hand model '
+    'Py65.Model.MonAsm for ALL arguments; Py65.Props.C20a states assemble_rejected_unchanged, '
+    'assemble_writes_encoding (+ _dev8, + assemble_needs_range: on the 65Org16 a slice at or above $40000 stores '
+    'nothing), interactive_assemble_blank / _accepted / _refused / _wraps / _session / _start, '
+    'display_commands_pure and cd_changes_cwd for the generated methods with the GENERATED assembler '
+    '(Py65.Gen.AsmGen.assemble, C07) plugged in.  Parameters of the generated functions (other translated code, '
+    'not re-translated): asm = Assembler.assemble (unit of C07), iat = Disassembler.instruction_at, fmtdis = '
+    'Monitor._format_disassembly (units of C09 / C19), dis = Monitor.do_disassemble (unit `show` of C19); cmdhelp = '
+    'cmd.Cmd.do_help of the standard library is NOT translated (dir(), getattr of every help_* method, columnize): '
+    'only the fact that it returns None on every path is checked on the installed cmd.py',
+    'library behaviour the generated text of unit `asmc` calls, modelled in lean/Py65/Model/MonAsmRt.lean (and '
+    'MonGenRt / MonCmdRt / ShowRt / GenRt / ObsMem): str.split(None, 1) (pySplitWs1), str.strip(), dict.get(k, '
+    'default) on the shortcut table, str * int, int(1 + w / 4) by exact fractions, %-formatting, len, '
+    'console.line_input(prompt, stdin=, stdout=) = "write the prompt, return the next typed line, echo it" (editing '
+    'keys not modelled; exhausted stdin = the call does not return, as getch polls for ever), os.chdir / os.getcwd '
+    '(a World function and a cwd field), KeyError.args[0] of AddressParser.number (keyErrorArg0) and of the '
+    'assembler (an uninterpreted text), slice.indices / range / zip of the slice store (ObsMem.setSlice, C10); the '
+    'reads the disassembler makes on the memory object are peeks (a read subscriber such as getc at $F004 is not '
+    'triggered in the model)',
     'hand model Py65.Model.MonCmd (cmd.Cmd.parseline/onecmd/emptyline, shlex.split, the two '
     'regular expressions as deterministic scanners, the state-owning commands; preprocess also hand-modelled, see '
     'above) -- tied to the real Monitor.onecmd by sampled correspondence (this check)',
@@ -193,6 +236,13 @@ ASSUMPTIONS = [
     'class Monitor derives from cmd.Cmd only, overrides none of parseline / default / emptyline / precmd / postcmd / '
     '__getattr__ / identchars / lastcmd, assigns no do_* attribute outside `def`, and that _output, _reset and __init__ '
     'still establish the facts the translation uses (byteMask, addrFmt, the AddressParser, _width = 78)',
+    'unit `asmc`: the translator checks that class Monitor derives from cmd.Cmd only, that cmd / os / console are '
+    'the imported modules and are never rebound, that _reset still builds AddressParser(maxwidth=self.addrWidth), '
+    'Disassembler(self._mpu, self._address_parser), Assembler(self._mpu, self._address_parser) and copies byteWidth / '
+    'addrFmt from the device, that nothing else assigns them, that __init__ calls _add_shortcuts (one dict literal), '
+    'that _output is stdout.write("%s\\n" % stuff), and that do_pwd\'s defaulted parameter is never read.  The '
+    'assemble theorems about exact cells assume WF (one of the two physical sizes) and WQuiet (write subscribers '
+    'answer None: true of putc) of the memory object, as C16 does',
     'the generated dispatcher is total only up to fuel: the recursion onecmd -> emptyline -> onecmd of an empty line '
     'whose lastcmd preprocesses to an empty line does not end in Python either (RecursionError, absorbed); the '
     'restated theorems exclude exactly that situation (Loops) and onecmd_needs_noloop shows the exclusion is needed',
@@ -204,16 +254,17 @@ ASSUMPTIONS = [
 ]
 
 def pre_build(ctx):
-    """translator tie: regenerate lean/Py65/Gen/MonPreGen.lean and MonCmdGen.lean from the current monitor.py
-    (and the installed cmd.py); for the composition (Py65.Props.C20h) also the units whose generated commands are
-    plugged into the dispatcher: fill, memcmd, run, show (+ repr, same translator), io"""
-    from props import montie, moncmdtie, monmemtie, iotie
+    """translator tie: regenerate lean/Py65/Gen/MonPreGen.lean, MonCmdGen.lean and MonAsmGen.lean from the current
+    monitor.py (and the installed cmd.py); for the composition (Py65.Props.C20h) also the units whose generated commands
+    are plugged into the dispatcher: fill, memcmd, run, show (+ repr, same translator), io"""
+    from props import montie, moncmdtie, monmemtie, iotie, monasmtie
     import showgen
     oks = [montie.pre_build(ctx, 'fill'), monmemtie.pre_build(ctx), montie.pre_build(ctx, 'run'),
            showgen.pre_build(ctx), iotie.pre_build(ctx)]
     a = montie.pre_build(ctx, 'pre')       # last of the montie units: its record stays in stats['translator']['monitor']
     b = moncmdtie.pre_build(ctx)
-    return a and b and all(bool(o) for o in oks)
+    c = monasmtie.pre_build(ctx)
+    return a and b and c and all(bool(o) for o in oks)
 
 
 SHORTCUTS = {'EOF': 'quit', '~': 'tilde', 'a': 'assemble', 'ab': 'add_breakpoint', 'al': 'add_label',
@@ -442,6 +493,12 @@ def gen_args(rng, dev, cmd):
     if cmd == 'assemble':
         stmts = ['nop', 'lda #$01', 'sta $10', 'inx', 'brk', 'rts', 'lda #$100', 'bogus', 'lda', 'jmp nosuch', 'lda foo',
                  'ldx #+5', 'sta $c000,x', 'bne $c000', 'lda #$1ffff', 'adc ($10),y', '???']
+        if r < 0.05:
+            # interactive, starting just below the top of the address space: the running address must wrap to 0
+            t = hexs(am - rng.choice([0, 1, 2]))
+            feed = ''.join(rng.choice(['nop', 'inx', 'rts', 'lda #$01', 'sta $10', 'bogus']) + '\n'
+                           for _ in range(rng.choice([2, 3, 4]))) + '\n'
+            return t, 'asm-interactive', None, feed.encode(), None
         if r < 0.2:
             feed = ''.join(rng.choice(stmts) + '\n' for _ in range(rng.choice([0, 1, 2, 3]))) + '\n'
             cls = rng.choice(['ok', 'label', 'nolabel', 'overflow'])
@@ -682,6 +739,111 @@ def prepare_scratch(d):
         f.write(bytes(range(256)) * 3)
 
 
+def pipe_peek(M):
+    """the bytes waiting in the monitor's stdin pipe (typed earlier and not consumed: left-over prompt answers, the
+    newline the harness adds per line); read without blocking and written back in the same order"""
+    import fcntl
+    fl = fcntl.fcntl(M.r, fcntl.F_GETFL)
+    data = b''
+    try:
+        fcntl.fcntl(M.r, fcntl.F_SETFL, fl | os.O_NONBLOCK)
+        while True:
+            try:
+                chunk = os.read(M.r, 65536)
+            except (BlockingIOError, InterruptedError):
+                break
+            if not chunk:
+                break
+            data += chunk
+    finally:
+        fcntl.fcntl(M.r, fcntl.F_SETFL, fl)
+    if data:
+        os.write(M.w, data)
+    return data
+
+
+def pipe_drain(M):
+    """discard what is waiting in the monitor's stdin pipe (the newlines the harness added for earlier lines), so
+    that the lines typed for an interactive `assemble` are what its prompts read"""
+    import fcntl
+    fl = fcntl.fcntl(M.r, fcntl.F_GETFL)
+    try:
+        fcntl.fcntl(M.r, fcntl.F_SETFL, fl | os.O_NONBLOCK)
+        while True:
+            try:
+                if not os.read(M.r, 65536):
+                    break
+            except (BlockingIOError, InterruptedError):
+                break
+    finally:
+        fcntl.fcntl(M.r, fcntl.F_SETFL, fl)
+
+
+def asm_expectation(M, ln, stale=b''):
+    """What an `assemble` line must store, by the documented behaviour of the COMMAND (the statement's bytes are
+    whatever the monitor's own Assembler returns for it at that address: the assembler is C07's subject):
+    -> None (not an assemble line / not judged) or {address: value} of the cells it must store, in order.
+    One-line form: the bytes at the parsed address, nothing when address or statement is refused.  Interactive
+    form: per typed line the bytes at the running address (advance, wrap at 2 ** ADDR_WIDTH), nothing for a refused
+    line, until the first blank line.  Not judged: a range that leaves the PHYSICAL memory (65Org16 above $3FFFF:
+    the slice store clips, see notes/asmc-gen-tie.md), a session without a blank line, anything that raises
+    something else."""
+    m = M.m
+    try:
+        cmdw, arg, _ = m.parseline(m._preprocess_line(ln.text))
+    except Exception:  # noqa: B902
+        return None
+    if cmdw != 'assemble' or arg is None:
+        return None
+    size = len(M.subject())
+    top = 1 << WIDTHS[m._mpu.name][1] if m._mpu.name in WIDTHS else None
+    if top is None:
+        return None
+    stores = {}
+
+    def put(start, bs):
+        if start < 0 or start + len(bs) > size:
+            return False
+        for i, b in enumerate(bs):
+            stores[start + i] = b
+        return True
+    number, assemble = m._address_parser.number, m._assembler.assemble
+    parts = arg.split(None, 1)
+    try:
+        if len(parts) == 2:
+            try:
+                start = number(parts[0])
+                bs = assemble(parts[1], start)
+            except (KeyError, OverflowError, SyntaxError):
+                return {}
+            return stores if put(start, bs) else None
+        if arg == '':
+            start = m._mpu.pc
+        else:
+            try:
+                start = number(arg)
+            except (KeyError, OverflowError):
+                return {}
+        typed = ((stale + ln.feed) or b'\n').decode('latin-1').split('\n')
+        for l in typed[:-1]:            # the piece after the last newline was not entered
+            if any(c in l for c in '\r\x7f\x08\x1b'):
+                return None
+            if not l.strip():
+                return stores
+            try:
+                bs = assemble(l, start)
+            except (KeyError, OverflowError, SyntaxError):
+                continue
+            if not put(start, bs):
+                return None
+            start += len(bs)
+            if start >= top:
+                start = 0
+        return None
+    except Exception:  # noqa: B902
+        return None
+
+
 def run_session(dev, lines, scratch, budget=1.0, twin=True):
     """-> dict(records=[...], aborted=None|reason).  One record per executed line."""
     os.chdir(scratch)
@@ -695,6 +857,13 @@ def run_session(dev, lines, scratch, budget=1.0, twin=True):
                 os.chdir(scratch)
             before = A.snapshot()
             last_before = A.m.lastcmd
+            if ln.feed:
+                for M in (A, B):
+                    if M is not None:
+                        pipe_drain(M)
+            # `assemble` lines: what they must store (the prompts read what is waiting in the pipe, then the feed)
+            want = asm_expectation(A, ln, pipe_peek(A)) if ln.cmd == 'assemble' or 'a' in ln.text else None
+            mem0 = list(A.subject()) if want is not None else None
             for M in (A, B):
                 if M is None:
                     continue
@@ -704,13 +873,19 @@ def run_session(dev, lines, scratch, budget=1.0, twin=True):
             cwd0 = os.getcwd()
             kind, val, text = A.run(ln.text, budget)
             cwd1 = os.getcwd()
+            asm = None
+            if want is not None and kind == 'ret':
+                mem1 = A.subject()
+                if len(mem1) == len(mem0):
+                    asm = dict(want=dict((a, v) for a, v in want.items() if mem0[a] != v),
+                               got=dict((i, y) for i, (x, y) in enumerate(zip(mem0, mem1)) if x != y))
             if kind == 'budget':
                 aborted = 'budget'
                 recs.append(dict(line=ln, kind=kind))
                 break
             after = A.snapshot()
             rec = dict(line=ln, kind=kind, val=val, text=text, before=before, after=after, last_before=last_before,
-                       lastcmd=A.m.lastcmd, status=text.endswith('\n' + repr(A.m._mpu) + '\n'))
+                       lastcmd=A.m.lastcmd, status=text.endswith('\n' + repr(A.m._mpu) + '\n'), asm=asm)
             if B is not None:
                 bl = ln.canon if ln.canon is not None else ln.text
                 os.chdir(cwd0)
@@ -771,6 +946,7 @@ def judge(dev, recs, segs):
     bm, am = (1 << W) - 1, (1 << AW) - 1
     findings, ties, rows = [], [], []
     hist = []
+    feeds = []
     model_lost = False      # after the first model/real disagreement only the model-free property parts are judged
 
     def finding(kind, what, rec, extra=None, **kw):
@@ -778,6 +954,8 @@ def judge(dev, recs, segs):
         key.update(kw)
         d = dict(key=key, what='%s [%s] after %d line(s): %s' % (kind, dev, len(hist) - 1, what),
                  replay=dict(device=dev, lines=list(hist), failing_line=rec['line'].text, kind=kind, detail=what))
+        if any(feeds):
+            d['replay']['feeds'] = list(feeds)      # what was typed at the interactive prompts, per line
         if extra:
             d['replay'].update(extra)
         findings.append(d)
@@ -785,6 +963,7 @@ def judge(dev, recs, segs):
     for idx, rec in enumerate(recs):
         ln = rec['line']
         hist.append(ln.text)
+        feeds.append(ln.feed.decode('latin-1') if ln.feed else '')
         if rec['kind'] == 'budget':
             rows.append((None, ln, 'budget'))
             break
@@ -807,6 +986,14 @@ def judge(dev, recs, segs):
                         rec)
         elif ln.quit is True:
             finding('quit-no-exit', 'onecmd(%r) returned %r: a quit form must request exit' % (ln.text, rec['val']), rec)
+        ax = rec.get('asm')
+        if ax is not None and ax['want'] != ax['got']:
+            # `assemble` (one line or interactive) must store exactly the assembled bytes at the (running) address
+            def cells(dd):
+                return ', '.join('$%x=%x' % kv for kv in sorted(dd.items())[:8]) or 'nothing'
+            finding('asm-store', 'onecmd(%r)%s must store {%s} and nothing else, but the memory changed by {%s}'
+                    % (ln.text, (' with the lines %r typed' % ln.feed.decode('latin-1')) if ln.feed else '',
+                       cells(ax['want']), cells(ax['got'])), rec, dict(feed=ln.feed.decode('latin-1'), output=text[-500:]))
         is_regs = word == 'registers'
         W, AW = WIDTHS[rec['before']['dev']]
         bm, am = (1 << W) - 1, (1 << AW) - 1
@@ -947,7 +1134,7 @@ def _work(spec):
     prepare_scratch(scratch)
     rng = random.Random('c20-%d-%d' % (seed, idx))
     res = dict(sessions=0, lines=0, agree=0, findings=[], nfind={}, ties=[], dist={}, distinct=set(), aborted=0,
-               samples=[], twins=0)
+               samples=[], twins=0, asm_judged=0, asm_storing=0, asm_interactive=0)
     batch = []
     for s in range(nsess):
         dev = DEVS[(idx + s) % 3]
@@ -988,6 +1175,11 @@ def _work(spec):
             if not (outcome == 'ok' and word is None and ln.argclass == 'blank'):
                 res['distinct'].add((dev, word or '-', ln.argclass, ln.noise, outcome))
         res['twins'] += sum(1 for r in recs if r.get('twin') is not None and r['line'].canon is not None)
+        for r in recs:
+            if r.get('asm') is not None:
+                res['asm_judged'] += 1
+                res['asm_storing'] += 1 if r['asm']['want'] else 0
+                res['asm_interactive'] += 1 if (r['asm']['want'] and r['line'].feed) else 0
         if len(res['samples']) < 2 and len(recs) >= 3 and not t and not f:
             res['samples'].append(dict(device=dev, lines=[r['line'].text[:60] for r in recs[:6]],
                                        outcomes=[o for _, _, o in rows[:6]]))
@@ -1005,11 +1197,11 @@ def explore(ctx):
     chunk = 50 if ctx.quick() else 250
     specs = [(ctx.seed, i, chunk, base) for i in range((nsess + chunk - 1) // chunk)]
     total = dict(sessions=0, lines=0, agree=0, findings=[], nfind={}, ties=[], dist={}, distinct=set(), aborted=0,
-                 samples=[], twins=0)
+                 samples=[], twins=0, asm_judged=0, asm_storing=0, asm_interactive=0)
     cwd = os.getcwd()
     with multiprocessing.Pool(procs) as pool:
         for r in pool.imap_unordered(_work, specs):
-            for k in ('sessions', 'lines', 'agree', 'aborted', 'twins'):
+            for k in ('sessions', 'lines', 'agree', 'aborted', 'twins', 'asm_judged', 'asm_storing', 'asm_interactive'):
                 total[k] += r[k]
             total['findings'] += r['findings']
             total['ties'] += r['ties']
@@ -1039,7 +1231,11 @@ def explore(ctx):
     ctx.stats['evaluations'] = total['lines']
     ctx.stats['traces_validated_against_impl'] = total['agree']
     ctx.stats['distinct_nontrivial'] = len(total['distinct'])
+    ctx.note('assemble lines judged by the store oracle: %d (%d of them must store something, %d through the '
+             'interactive prompt)' % (total['asm_judged'], total['asm_storing'], total['asm_interactive']))
     ctx.stats['distribution'] = dict(sessions=total['sessions'], cut_short=total['aborted'], twin_comparisons=total['twins'],
+                                     assemble_store_oracle=dict(judged=total['asm_judged'], storing=total['asm_storing'],
+                                                                interactive_storing=total['asm_interactive']),
                                      command_outcome=dict(sorted(total['dist'].items())),
                                      property_deviations=total['nfind'])
     ctx.samples = total['samples'][:6]
@@ -1057,7 +1253,8 @@ def replay(ctx, path):
     os.makedirs(scratch, exist_ok=True)
     prepare_scratch(scratch)
     dev = rp['device']
-    lines = [Line(t) for t in rp['lines']]
+    fds = rp.get('feeds') or []
+    lines = [Line(t, feed=(fds[i].encode('latin-1') if i < len(fds) else b'')) for i, t in enumerate(rp['lines'])]
     out = run_session(dev, lines, scratch, twin=False)
     segs = []
     try:
